@@ -7,15 +7,71 @@ From SG Require Import Base.Prelude Base.GoInt Base.GoFloat Model.LeapArray Mode
 From Gen Require Import Leaf_gen.
 #[local] Open Scope Z_scope.
 
+(* ---- one shape-independent script for every "regenerated decision = model decision" lemma of this file ----
+   [leaf_decide]: case-split on the condition of every if-then-else of the goal (outermost first, so that
+   guarded sub-terms are only visited on the paths that reach them), then in every leaf: evaluate; if the
+   two sides still differ the path must be contradictory - break the recorded conditions into their atoms
+   (andb / orb / negb), use them to rewrite what is left of the goal, split the remaining atoms, and close
+   with reflexivity / lia (integer atoms) / congruence (the same float atom with two truth values).
+   Nothing here depends on the order or nesting of the tests in the generated term. *)
+Ltac split_ifs :=
+  repeat match goal with
+         | |- context [if ?c then _ else _] => destruct c eqn:?
+         end.
+Ltac norm_hyps :=
+  repeat match goal with
+         | H : negb _ = true |- _ => apply Bool.negb_true_iff in H
+         | H : negb _ = false |- _ => apply Bool.negb_false_iff in H
+         | H : andb _ _ = true |- _ => apply Bool.andb_true_iff in H; destruct H
+         | H : orb _ _ = false |- _ => apply Bool.orb_false_iff in H; destruct H
+         | H : andb _ _ = false |- _ => apply Bool.andb_false_iff in H; destruct H
+         | H : orb _ _ = true |- _ => apply Bool.orb_true_iff in H; destruct H
+         | H : true = false |- _ => discriminate H
+         | H : false = true |- _ => discriminate H
+         end.
+Ltac split_hyp_ifs :=
+  repeat match goal with
+         | H : context [if ?c then _ else _] |- _ => destruct c eqn:?
+         end.
+Ltac use_hyps :=
+  repeat match goal with
+         | H : ?a = true |- context [?a] => rewrite H
+         | H : ?a = false |- context [?a] => rewrite H
+         end.
+Ltac split_atoms :=
+  repeat match goal with
+         | |- context [Z.eqb ?a ?b] => destruct (Z.eqb a b) eqn:?
+         | |- context [Z.ltb ?a ?b] => destruct (Z.ltb a b) eqn:?
+         | |- context [Z.leb ?a ?b] => destruct (Z.leb a b) eqn:?
+         | |- context [PrimFloat.ltb ?a ?b] => destruct (PrimFloat.ltb a b) eqn:?
+         | |- context [PrimFloat.leb ?a ?b] => destruct (PrimFloat.leb a b) eqn:?
+         | |- context [PrimFloat.eqb ?a ?b] => destruct (PrimFloat.eqb a b) eqn:?
+         | |- context [float64_equals ?a ?b] => destruct (float64_equals a b) eqn:?
+         end.
+Ltac z_facts :=
+  repeat match goal with
+         | H : Z.eqb _ _ = true |- _ => apply Z.eqb_eq in H
+         | H : Z.eqb _ _ = false |- _ => apply Z.eqb_neq in H
+         | H : Z.ltb _ _ = true |- _ => apply Z.ltb_lt in H
+         | H : Z.ltb _ _ = false |- _ => apply Z.ltb_ge in H
+         | H : Z.leb _ _ = true |- _ => apply Z.leb_le in H
+         | H : Z.leb _ _ = false |- _ => apply Z.leb_gt in H
+         end.
+Ltac leaf_close := first [ reflexivity | congruence | (exfalso; z_facts; lia) | (z_facts; lia) ].
+Ltac leaf_decide :=
+  cbv zeta; split_ifs;
+  first [ reflexivity
+        | repeat (progress (norm_hyps; split_hyp_ifs)); use_hyps; cbn [andb orb negb];
+          first [ leaf_close | split_atoms; cbn [andb orb negb]; leaf_close ] ].
+
 Lemma flow_reject_DoCheck_ok thr sum b :
   negb (flow_reject_DoCheck b sum false thr =? 0) = rule_blocks thr sum b.
 Proof.
-  unfold flow_reject_DoCheck, rule_blocks. cbv iota zeta.
-  destruct (PrimFloat.ltb thr (PrimFloat.add (f_of_i64 sum) (f_of_u64 b))); reflexivity.
+  unfold flow_reject_DoCheck, rule_blocks. leaf_decide.
 Qed.
 
 Lemma flow_reject_DoCheck_no_stat thr sum b : flow_reject_DoCheck b sum true thr = 0.
-Proof. reflexivity. Qed.
+Proof. unfold flow_reject_DoCheck. leaf_decide. Qed.
 
 Print Assumptions flow_reject_DoCheck_ok.
 
